@@ -172,6 +172,13 @@ Proof.
   - inv_res H. eapply mb_frame_trans; [eapply frame_drop_handle; eauto | eauto].
 Qed.
 
+Lemma frame_add_pend s o : mb_frame s (add_pend o s).
+Proof. apply frame_same_maps; reflexivity. Qed.
+Lemma frame_del_pend s o : mb_frame s (del_pend o s).
+Proof. apply frame_same_maps; reflexivity. Qed.
+Lemma frame_add_actor s a : mb_frame s (add_actor a s).
+Proof. apply frame_same_maps; reflexivity. Qed.
+
 (** one actor's mailbox changes; everything else about mailboxes stays *)
 Lemma step_put_actor e s a x x' :
   actors s a = Some x -> mb_tr e a s (put_actor s a x') (a_mb x) (a_mb x') ->
@@ -205,11 +212,13 @@ Lemma step_submit e s a o p w weak k sl htx hftx tm s' :
   submit s a o p w weak k sl htx hftx tm = Acc s' -> mb_step e s s' /\ ops s' o <> None.
 Proof.
   intros Ho Hp H. unfold submit in H. inv_res H; subst s'.
-  - split; [apply mb_frame_step, frame_put_op | rewrite ops_put_op, upd_same; discriminate].
-  - split; [apply mb_frame_step, frame_put_op | rewrite ops_put_op, upd_same; discriminate].
+  - split; [apply mb_frame_step; eapply mb_frame_trans; [apply frame_put_op | apply frame_add_pend]
+           | cbn; rewrite upd_same; discriminate].
+  - split; [apply mb_frame_step; eapply mb_frame_trans; [apply frame_put_op | apply frame_add_pend]
+           | cbn; rewrite upd_same; discriminate].
   - apply get_actor_acc in Hv. apply Bool.negb_false_iff in Hb0. split.
-    + eapply step_enq; eauto. destruct w; reflexivity.
-    + rewrite ops_put_actor, ops_put_op, upd_same. discriminate.
+    + eapply mb_step_then_frame; [|apply frame_add_pend]. eapply step_enq; eauto. destruct w; reflexivity.
+    + cbn. rewrite upd_same. discriminate.
 Qed.
 
 Ltac norm_gets :=
@@ -265,6 +274,9 @@ Ltac fr :=
   | |- mb_frame ?s (set_reg _ ?s1) => apply (mb_frame_trans s s1); [ | apply frame_set_reg ]; fr
   | |- mb_frame ?s (set_rlock _ ?s1) => apply (mb_frame_trans s s1); [ | apply frame_set_rlock ]; fr
   | |- mb_frame ?s (set_rpend _ ?s1) => apply (mb_frame_trans s s1); [ | apply frame_set_rpend ]; fr
+  | |- mb_frame ?s (add_pend _ ?s1) => apply (mb_frame_trans s s1); [ | apply frame_add_pend ]; fr
+  | |- mb_frame ?s (del_pend _ ?s1) => apply (mb_frame_trans s s1); [ | apply frame_del_pend ]; fr
+  | |- mb_frame ?s (add_actor _ ?s1) => apply (mb_frame_trans s s1); [ | apply frame_add_actor ]; fr
   | |- mb_frame ?s (match ?c with _ => _ end) => destruct c; fr
   | |- mb_frame ?s ?v =>
       (* an intermediate state produced by a helper that only touches reference counts *)
@@ -332,7 +344,8 @@ Qed.
 Ltac step_tac s :=
   first
     [ solve [ apply mb_frame_step; fr ]
-    | solve [ eapply step_new_actor; [ match goal with |- ?m ?a = None => destruct (m a); [discriminate|reflexivity] end | reflexivity ] ]
+    | solve [ eapply mb_step_then_frame; [ | apply frame_add_actor ];
+              eapply step_new_actor; [ match goal with |- ?m ?a = None => destruct (m a); [discriminate|reflexivity] end | reflexivity ] ]
     | solve [ apply mb_frame_step; eapply frame_drop_handle; eassumption ]
     | solve [ match goal with Hs : submit _ _ ?o _ _ _ _ _ _ _ _ = Acc _ |- _ =>
                 eapply step_submit in Hs; [ exact (proj1 Hs) | fresh_op s o | reflexivity ] end ]
@@ -363,7 +376,8 @@ Proof.
   all: inv_res H; norm_gets; subst.
   all: try step_tac s.
   (* EvSpawn by a registry lookup: the old entry is released, the new actor appears *)
-  { eapply (mb_step_then_frame _ s (put_actor v a (fresh_actor c 1))).
+  { eapply mb_step_then_frame; [ | apply frame_add_actor ].
+    eapply (mb_step_then_frame _ s (put_actor v a (fresh_actor c 1))).
     - eapply (mb_frame_then_step _ s v);
         [ exact (frame_release_entry _ _ _ Hv) | exact (ops_release_entry _ _ _ Hv) | ].
       eapply step_new_actor; [|reflexivity].
